@@ -14,7 +14,9 @@ RUNNER = "engine"
 OBLS = [None, [], [{"type": "require_mfa"}], [{"type": "require_level", "attrs": {"min": 2}}],
         [{"type": "require_mfa", "on": "deny"}], [{"type": "unknown_kind"}],
         [{"type": "require_mfa"}, {"type": "require_reauth", "attrs": {"max_age": 60}}],
-        [{"type": "http_challenge", "attrs": {"scheme": "Basic"}}]]
+        [{"type": "http_challenge", "attrs": {"scheme": "Basic"}}],
+        [{"type": {"vendor": "x", "name": "audit"}}, {"type": "require_mfa"}], [{"type": ["require_mfa"]}, {"type": "require_level", "attrs": {"min": 2}}],
+        [{"type": "http_challenge", "attrs": {"scheme": 1}}], [{"type": "require_consent", "attrs": {"key": ""}}]]
 CTXS = [{}, {"mfa": True}, {"mfa": True, "auth_level": 3, "reauth_age_seconds": 5}, {"auth_level": "high"},
         {"mfa": 0, "n": 5}, {"mfa": True, "n": 5, "reauth_age_seconds": 500}]
 REL_CONDS = [{"rel": "viewer"}, {"rel": {"relation": "owner", "resource": {"attr": "resource.attrs.parent"}}},
@@ -38,6 +40,8 @@ def rich_rule(rng, i):
         rule["condition"] = rng.choice([{"==": [{"attr": "context.n"}, 5]}, {"<": [{"attr": "context.n"}, 3]},
                                         {"hasAny": [{"attr": "subject.roles"}, ["admin", "staff"]]},
                                         {"in": ["staff", {"attr": "subject.roles"}]},
+                                        {"==": [{"attr": "subject.roles"}, ["admin", "staff"]]},
+                                        {"!=": [{"attr": "subject.roles"}, ["staff", "admin"]]},
                                         {"<": [{"attr": "subject.id"}, 5]}, {"startsWith": [{"attr": "subject.attrs.dept"}, "en"]},
                                         {"before": [{"attr": "context.now"}, "2999-01-01T00:00:00Z"]}, False, True,
                                         # logic trees whose operands are ill-typed for some requests (short-circuit, not/or)
@@ -61,6 +65,12 @@ def rich_rule(rng, i):
 def rich_policy(rng, depth=0):
     if depth < 2 and rng.random() < (0.35 if depth == 0 else 0.25):
         kids = [rich_policy(rng, depth + 1) for _ in range(rng.choice([1, 2, 2, 3]))]
+        for k in kids:               # the schema does not require ids: children without one, or with an empty one
+            r = rng.random()
+            if r < 0.25:
+                k.pop("id", None)
+            elif r < 0.32:
+                k["id"] = ""
         ps = {"id": "s%d" % rng.randrange(100), "policies": kids}
         a = rng.choice(polgen.ALGOS + [None])
         if a:
@@ -76,7 +86,7 @@ def rich_policy(rng, depth=0):
 def requests(rng, n):
     out = []
     for _ in range(n):
-        out.append({"subject": {"id": rng.choice(["u1", "u2", 7, None]), "roles": rng.choice([["staff"], [], ["admin", "staff"], ["x"]]),
+        out.append({"subject": {"id": rng.choice(["u1", "u2", 7, None]), "roles": rng.choice([["staff"], [], ["admin", "staff"], ["x"], ["staff", "admin"], ["admin", "staff", "admin"]]),
                                 "attrs": rng.choice([{"dept": "eng"}, {}, {"dept": 5}])},
                     "action": rng.choice(["read", "read", "write", "delete"]),
                     "resource": {"type": rng.choice(["doc", "doc", "img", None, 1]), "id": rng.choice(["1", 1, "2", None]),
@@ -112,6 +122,10 @@ def set_cases(chk):
                 if algo:
                     ps["algorithm"] = algo
                 out.append({"fam": "set%d" % k, "policy": ps, "req": polgen.BASE_REQ, "strict": False})
+                if k == 2:           # the first child without an id (the schema does not require one)
+                    first = {kk: v for kk, v in pool[combo[0]][1].items() if kk != "id"}
+                    ps2 = dict(ps, policies=[first, pool[combo[1]][1]])
+                    out.append({"fam": "set2_noid", "policy": ps2, "req": polgen.BASE_REQ, "strict": False})
     return out
 
 
@@ -256,8 +270,30 @@ def run_impl_one(c):
     ck = c.get("checker")
     if ck:
         kw["relationship_checker"] = CHECKERS[ck]()
+    class AsyncSink(Sink):                       # the same sinks as `async def`s: they fail while awaited
+        async def log(self, payload):            # type: ignore[override]
+            self.payloads.append(copy.deepcopy(payload))
+            await asyncio.sleep(0)
+            if self.fail:
+                raise RuntimeError("sink down (awaited)")
+
+    class AsyncMetrics(Metrics):
+        async def inc(self, name, labels=None):  # type: ignore[override]
+            self.incs.append((name, dict(labels or {})))
+            await asyncio.sleep(0)
+            if self.fail:
+                raise RuntimeError("metrics down (awaited)")
+
+        async def observe(self, name, value, labels=None):  # type: ignore[override]
+            await asyncio.sleep(0)
+            if self.fail:
+                raise RuntimeError("metrics down (awaited)")
+
     sf = c.get("sinks_fail")      # True / "both": both sinks raise; "metrics" / "log": only that one raises
-    sink, metrics = Sink(fail=sf in (True, "both", "log")), Metrics(fail=sf in (True, "both", "metrics"))
+    if c.get("sinks_async"):
+        sink, metrics = AsyncSink(fail=sf in (True, "both", "log")), AsyncMetrics(fail=sf in (True, "both", "metrics"))
+    else:
+        sink, metrics = Sink(fail=sf in (True, "both", "log")), Metrics(fail=sf in (True, "both", "metrics"))
     kw["logger_sink"], kw["metrics"] = sink, metrics
     if c.get("cache"):
         kw["cache"] = DefaultInMemoryCache(64)
@@ -306,6 +342,13 @@ def _siblings(req):
     out.append({**req, "resource": {**req["resource"], "type": "img" if req["resource"].get("type") != "img" else "doc"}})
     out.append({**req, "action": "write" if req.get("action") != "write" else "read"})
     out.append({**req, "subject": {**req["subject"], "roles": ["admin"] if req["subject"].get("roles") != ["admin"] else []}})
+    roles = list(req["subject"].get("roles") or [])
+    if len(roles) >= 2:          # the same role set in another order / with a repeat: other requests all the same
+        out.append({**req, "subject": {**req["subject"], "roles": roles[::-1]}})
+    if roles:
+        out.append({**req, "subject": {**req["subject"], "roles": roles + roles[:1]}})
+    else:
+        out.append({**req, "subject": {**req["subject"], "roles": ["staff", "admin"]}})
     out.append({**req, "context": {"mfa": True, "n": 5} if req.get("context") != {"mfa": True, "n": 5} else {}})
     return out
 
